@@ -50,6 +50,11 @@ def corpus(thorough):
     nodes, e1, _ = space.explore([dict(space.baseline(c, "dx"), tp=True) for c in cells], 2 if thorough else 1, dims=dims)
     for k, cfg in nodes.items():
         items.append(("sumfact", k, cfg))
+    for c in cells:
+        for el in ("P3", "P2"):
+            for ar in (2, 1):
+                cfg = dict(space.baseline(c, "dx"), tp=True, tpmixed=True, test=el, trial=el, factor="fg", arity=ar, geom="general")
+                items.append(("sumfact", space.key(cfg) + ",tpmixed", cfg))
     # ... and the standard elements of the same cells (baseline + element/operator deviations)
     nodes_std, e1b, _ = space.explore([space.baseline(c, "dx") for c in cells], 1, dims=["elem", "op", "arity"])
     e1 += e1b
